@@ -62,3 +62,22 @@ Theorem C12_removed_not_called : forall ev rest now nw n k,
   timer_pass (ev :: rest) now nw n k = timer_pass rest now nw n k.
 Proof. exact timer_removed_not_called. Qed.
 Print Assumptions C12_removed_not_called.
+
+From J1939P Require NoOversleep NoOversleepTimers.
+(* T12.7 "called when due": the sleep one iteration of the job loop computes ends not later than the deadline of ANY timer
+   still registered (periodic or one-shot, advanced or left alone, value-equal twins included) and of any transport session
+   still open; for a registration made during the pass itself a wake-up token is pending, so the sleep ends at once *)
+Theorem C12_job_thread_never_sleeps_past_a_timer_deadline : forall n now,
+  tnodup (n_rcv n) -> tnodup (n_snd n) -> NoOversleepTimers.timers_wf n ->
+  match flat (job_iter n now) with
+  | (n', _, RDone r) => r <= 5000000 /\ NoOversleepTimers.all_covered n n' (now + r)
+  | (_, _, RRaise _) => True
+  end.
+Proof. exact NoOversleepTimers.job_iter_never_oversleeps. Qed.
+Print Assumptions C12_job_thread_never_sleeps_past_a_timer_deadline.
+
+(* the well-formedness premise is what add_timer maintains, and it is met by a concrete node *)
+Theorem C12_add_timer_keeps_registrations_well_formed : forall n now delta cb ret,
+  NoOversleepTimers.timers_wf n -> NoOversleepTimers.timers_wf (add_timer n now delta cb ret).
+Proof. exact NoOversleepTimers.add_timer_wf. Qed.
+Print Assumptions C12_add_timer_keeps_registrations_well_formed.
